@@ -343,7 +343,10 @@ package vnet
 //@   modifies t.currentTokensInBucket, tbIdeal, fwdN, fwdNIC, fwdChunk, fwdIdx, fwdItem
 //@   ensures [bucket] t.currentTokensInBucket <= tbIdeal && tbIdeal - t.currentTokensInBucket == old(tbIdeal - t.currentTokensInBucket)
 //@   ensures [nonneg] old(t.currentTokensInBucket) >= float64(0) ==> t.currentTokensInBucket >= float64(0)
-//@   ensures [fifo] fwdN >= old(fwdN)
+//@   ensures [fifo] fwdN - old(fwdN) == t.queue.head - old(t.queue.head) && fwdN >= old(fwdN) &&
+//@            (forall k mathint :: {fwdNIC[k]} old(fwdN) <= k && k < fwdN ==> fwdNIC[k] == ref(t.NIC) && fwdIdx[k] == old(t.queue.head) + k - old(fwdN) && fwdItem[k] == fwdChunk[k])
+//@   ensures [log] forall k mathint :: {fwdNIC[k]} k < old(fwdN) ==> fwdNIC[k] == old(fwdNIC[k]) && fwdChunk[k] == old(fwdChunk[k]) && fwdIdx[k] == old(fwdIdx[k]) && fwdItem[k] == old(fwdItem[k])
+//@   loop 1 invariant [log] forall k mathint :: {fwdNIC[k]} k < old(fwdN) ==> fwdNIC[k] == old(fwdNIC[k]) && fwdChunk[k] == old(fwdChunk[k]) && fwdIdx[k] == old(fwdIdx[k]) && fwdItem[k] == old(fwdItem[k])
 //@   loop 1 invariant [bucket] t.currentTokensInBucket <= tbIdeal && tbIdeal - t.currentTokensInBucket == old(tbIdeal - t.currentTokensInBucket) &&
 //@            (old(t.currentTokensInBucket) >= float64(0) ==> t.currentTokensInBucket >= float64(0))
 //@   loop 1 invariant [fifo] fwdN - old(fwdN) == t.queue.head - old(t.queue.head) && fwdN >= old(fwdN) &&
@@ -356,7 +359,11 @@ package vnet
 //@   requires t.queue != nil && t.NIC != nil && t.log != nil && t.minRefillDuration >= 0 && t.currentTokensInBucket == float64(0)
 //@   modifies clock, lastPushed, t.currentTokensInBucket, tbRate, tbBurst, tbIdeal, tbAt, fwdN, fwdNIC, fwdChunk, fwdIdx, fwdItem
 //@   ensures [bucket] t.currentTokensInBucket <= tbIdeal
+//@   ensures [fifo] fwdN - old(fwdN) == t.queue.head - old(t.queue.head) && fwdN >= old(fwdN) &&
+//@            (forall k mathint :: {fwdNIC[k]} old(fwdN) <= k && k < fwdN ==> fwdNIC[k] == ref(t.NIC) && fwdIdx[k] == old(t.queue.head) + k - old(fwdN) && fwdItem[k] == fwdChunk[k])
 //@   loop 1 invariant [bucket] t.currentTokensInBucket <= tbIdeal && tbAt == lastRefill && tbAt == clock
+//@   loop 1 invariant [fifo] fwdN - old(fwdN) == t.queue.head - old(t.queue.head) && fwdN >= old(fwdN) &&
+//@            (forall k mathint :: {fwdNIC[k]} old(fwdN) <= k && k < fwdN ==> fwdNIC[k] == ref(t.NIC) && fwdIdx[k] == old(t.queue.head) + k - old(fwdN) && fwdItem[k] == fwdChunk[k])
 //@   ghost after refillTokens#1: tbIdeal = float64(tbBurst)
 //@   ghost after Now#1: tbAt = result$
 //@   ghost after refillTokens#2: tbIdeal = ite(float64(tbBurst) <= tbIdeal + float64(tbRate) * (float64(now - tbAt) / float64(1000000000)) / float64(8), float64(tbBurst), tbIdeal + float64(tbRate) * (float64(now - tbAt) / float64(1000000000)) / float64(8)); tbAt = now
